@@ -1,0 +1,47 @@
+//go:build verif
+
+package pebbledb
+
+import (
+	"errors"
+	"sync"
+
+	"github.com/cockroachdb/pebble"
+	"github.com/cockroachdb/pebble/vfs"
+)
+
+// Verification hooks, compiled only with -tags verif.
+
+// ErrVerifGuardPassed is returned by NewPebbleScanner in guard-only mode when the path
+// sanitisation block did NOT refuse the path (nothing is opened or created).
+var ErrVerifGuardPassed = errors.New("verif: path guard passed (guard-only mode)")
+
+var (
+	verifMu        sync.Mutex
+	verifGuardOnly bool
+	verifFS        vfs.FS
+)
+
+// VerifSetGuardOnly makes NewPebbleScanner stop right after the path guard.
+func VerifSetGuardOnly(on bool) { verifMu.Lock(); verifGuardOnly = on; verifMu.Unlock() }
+
+// VerifSetFS injects a file system (e.g. vfs.NewStrictMem wrapped in errorfs) into every
+// subsequently opened store; nil restores the default.
+func VerifSetFS(fs vfs.FS) { verifMu.Lock(); verifFS = fs; verifMu.Unlock() }
+
+func verifGuardProbe(dbPath, resolved string) error {
+	verifMu.Lock()
+	defer verifMu.Unlock()
+	if verifGuardOnly {
+		return ErrVerifGuardPassed
+	}
+	return nil
+}
+
+func verifOpenHook(opts *pebble.Options) {
+	verifMu.Lock()
+	defer verifMu.Unlock()
+	if verifFS != nil {
+		opts.FS = verifFS
+	}
+}
